@@ -36,6 +36,31 @@ pub enum Step {
     Begin(String, BeginOut),
     Commit(String, u64, RevOut),
     Cancel(String, RevOut),
+    /// a card is read in between: no effect on the transactions, whatever the card's status information carries
+    /// (variant picks amount / receipt number / maximum pre-authorisation values that resemble the open transactions)
+    ReadCard(u8),
+}
+
+/// A card whose status information is as rich as a payment's: amount, trace number, a receipt number that equals
+/// one issued for an open transaction (or the next one), and a maximum pre-authorisation amount around the configured one.
+pub fn rich_card(variant: u8, pre_amount: u64, open_receipts: &[u64], next_receipt: u64) -> CardData {
+    let v = variant as u64;
+    let receipt = match v % 4 {
+        0 => None,
+        1 => open_receipts.first().cloned().or(Some(next_receipt)),
+        2 => Some(next_receipt),
+        _ => Some(9999),
+    };
+    let max_pre = match (v / 4) % 6 {
+        0 => None,
+        1 => Some(0),
+        2 => Some(pre_amount.saturating_sub(1)),
+        3 => Some(pre_amount),
+        4 => Some(pre_amount + 1),
+        _ => Some(1),
+    };
+    let status = if (v / 24) % 2 == 0 { Some(StatusFields { amount: Some(match (v / 48) % 3 { 0 => 0, 1 => pre_amount / 2, _ => 999_999 }), trace_number: Some(4711), date: Some(1231), time: Some(235959), terminal_id: Some(87654321), currency: Some(if v % 2 == 0 { 978 } else { 840 }), card_name: Some("girocard".into()) }) } else { None };
+    CardData { uid: Some("000000000000081ca72f".into()), status, receipt, max_pre_auth: max_pre, ..CardData::default() }
 }
 
 /// How the terminal behaves during an idle clean-up.
@@ -128,6 +153,12 @@ pub fn build(cfg: &ClientCfg, steps: &[Step], cleanup_for: &dyn Fn(usize) -> Cle
             ok
         };
         let exp = match st {
+            Step::ReadCard(variant) => {
+                sc.calls.push(Call::ReadCard);
+                let open: Vec<u64> = model.open.values().cloned().collect();
+                sc.plan.push(call, Cmd::ReadCard, ExPlan { card: Some(rich_card(*variant, cfg.pre_amount as u64, &open, next_receipt)), ..ExPlan::default() });
+                Expect::Accepted { ok: true, requests: vec![Cmd::ReadCard], cleanup: false }
+            }
             Step::Begin(t, out) => {
                 sc.calls.push(Call::Begin(t.clone()));
                 if model.open.len() == model.max || model.open.contains_key(t) {
@@ -300,6 +331,7 @@ pub fn judge(r: &mut Report, prop: &str, steps: &[Step], b: &Built, tr: &Trace) 
                                 return;
                             }
                         }
+                        Step::ReadCard(_) => {}
                         Step::Begin(t, _) => {
                             let tok = reqs[0].val.path("tlv.bmp_data.bmp_data").and_then(|x| x.text()).map(|s| s.to_string());
                             if tok.as_deref() != Some(t.as_str()) {
@@ -455,6 +487,9 @@ fn random_walk(rng: &mut Rng, len: usize) -> Vec<Step> {
     (0..len)
         .map(|_| {
             let t = rng.pick(&pool).clone();
+            if rng.chance(1, 12) {
+                return Step::ReadCard(rng.byte());
+            }
             match rng.below(10) {
                 0..=3 => Step::Begin(
                     t,
@@ -511,7 +546,7 @@ pub fn run(ctx: &Ctx, id: &str) -> i32 {
     };
     let n_walks = ctx.by(4_000usize, 200_000usize);
     report.rule = if id == "C07" {
-        format!("call histories of begin/commit/cancel over tokens {{a,b,c}} (tokens introduced in this order: symmetry), model-guided bounded-exhaustive: every history of exactly {depth} calls with every terminal outcome (reservation: success / abort / missing receipt / abort after a status information that already carried a receipt number; reversal: completed / abort / abort B8 echoing the request's receipt number) branched where the model accepts the call, x transactions_max_num 0..3; then a probe suffix cancel(a), cancel(b), cancel(c); plus {n_walks} random walks to depth 40 with empty / 99-byte / non-ASCII tokens and max 0..4. Additionally: every abort code 0..255 x {{no receipt, own receipt echoed, FFFF, another receipt}} for commit and cancel with one and two open transactions, and a link fault (close/garbage/NACK/foreign/silence) at every packet of the reservation exchange followed by commit/cancel (the token must map to the receipt of the reservation that completed). Oracle: sequential client model (D.3) for the result class, 'refused => no request and no connection', 'commit/cancel carry the receipt number the terminal issued for that token', and the hook snapshot of the client's map after every call. Non-trivial = history with at least one accepted call; distinct by hash of (history, max).")
+        format!("call histories of begin/commit/cancel over tokens {{a,b,c}} (tokens introduced in this order: symmetry), model-guided bounded-exhaustive: every history of exactly {depth} calls with every terminal outcome (reservation: success / abort / missing receipt / abort after a status information that already carried a receipt number; reversal: completed / abort / abort B8 echoing the request's receipt number) branched where the model accepts the call, x transactions_max_num 0..3; then a probe suffix cancel(a), cancel(b), cancel(c); plus {n_walks} random walks to depth 40 with empty / 99-byte / non-ASCII tokens and max 0..4. Additionally: card reads interleaved with the transaction calls (the card's status information carrying an amount, a receipt number equal to an open transaction's, and a maximum pre-authorisation amount around the configured one: no effect on the tokens allowed), every abort code 0..255 for a reservation while another transaction is open, every abort code 0..255 x {{no receipt, own receipt echoed, FFFF, another receipt}} for commit and cancel with one and two open transactions, and a link fault (close/garbage/NACK/foreign/silence) at every packet of the reservation exchange followed by commit/cancel (the token must map to the receipt of the reservation that completed). Oracle: sequential client model (D.3) for the result class, 'refused => no request and no connection', 'commit/cancel carry the receipt number the terminal issued for that token', and the hook snapshot of the client's map after every call. Non-trivial = history with at least one accepted call; distinct by hash of (history, max).")
     } else {
         format!("the C07 histories (exactly {depth} calls, max 1..3) and {n_walks} random walks, each run under a clean-up behaviour chosen per scenario: pending query reports {{no receipt field, FFFF, a dangling receipt}}, reversal of the dangling receipt {{completes, aborts}}, end-of-day {{completion, abort A0, every abort code 00..FF in turn, aborts (B8, A0, B4, ...) that also carry a receipt number}}, with intermediate/print packets inside the end-of-day exchange. Oracle (temporal checker over the request log per call): a commit/cancel the terminal completed that leaves no token open is followed by exactly PendingQuery -> PreAuthReversal(d) iff d reported -> EndOfDay(password); result Ok on completion/A0, error otherwise; with tokens remaining no PendingQuery/EndOfDay. Non-trivial = history containing at least one completed commit/cancel; distinct by hash of (history, max, clean-up behaviour).")
     };
@@ -634,6 +669,21 @@ pub fn run(ctx: &Ctx, id: &str) -> i32 {
                     }
                 }
             }
+        }
+        // every abort code for a reservation while another transaction is open: only the new token stays closed
+        for code in (0..=255u8).filter(|c| *c as usize % threads == shard) {
+            for after_receipt in [false, true] {
+                let out = if after_receipt { BeginOut::AbortAfterReceipt(code) } else { BeginOut::Abort(code) };
+                let steps = vec![Step::Begin("a".into(), BeginOut::Success), Step::Begin("b".into(), out.clone()), Step::Commit("a".into(), 900, RevOut::Completed), Step::Begin("b".into(), BeginOut::Success), Step::Begin("c".into(), out), Step::Cancel("b".into(), RevOut::Completed)];
+                run_one(r, &mut rng, 2, steps, code as usize);
+                r.count("abort_code_sweep_histories", 1);
+            }
+        }
+        // a card read before / between / after the transaction calls, its status information resembling a payment's
+        for variant in (0..144u8).filter(|c| *c as usize % threads == shard) {
+            let steps = vec![Step::ReadCard(variant), Step::Begin("a".into(), BeginOut::Success), Step::ReadCard(variant.wrapping_add(5)), Step::Begin("b".into(), BeginOut::Success), Step::Commit("a".into(), 1200, RevOut::Completed), Step::ReadCard(variant.wrapping_add(11)), Step::Cancel("b".into(), RevOut::Completed), Step::Begin("c".into(), BeginOut::Success)];
+            run_one(r, &mut rng, 2, steps, variant as usize);
+            r.count("read_card_interleaved_histories", 1);
         }
         // a link fault at every packet of the reservation exchange: the client re-sends the reservation, the terminal
         // issues another receipt number; begin must record the receipt of the reservation that completed
